@@ -38,7 +38,16 @@ def units(tier):
     out = [("rel", d, variant) for d in _schemas(tier) for variant in ("plain", "mixin")]
     for variant in ("plain", "mixin", "lazy"):
         out.append(("hist", variant, 3 if tier == "quick" else 4))
+    # one-shot functions called one after the other with shape types that are EQUAL as Python objects but different shapes for the
+    # library: unions with the same members in another order
+    import itertools
+    for a, b in itertools.combinations(PAIR_MEMBERS, 2):
+        for spelling in ("union", "optional", "list", "dict"):
+            out.append(("pairs", a, b, spelling))
     return out
+
+
+PAIR_MEMBERS = ("date", "str", "int", "float", "bool", "list_str", "list_int")
 
 
 # ------------------------------------------------------------------------------------------------
@@ -334,12 +343,64 @@ def run_hist(unit, only=None):
     return res
 
 
+def run_pairs(unit):
+    import datetime
+    import typing
+    from mashumaro.codecs import basic
+    _, a, b, spelling = unit
+    res = core.UnitResult()
+    T = {"date": datetime.date, "str": str, "int": int, "float": float, "bool": bool, "list_str": typing.List[str], "list_int": typing.List[int]}
+    inputs = ["2020-01-02", "1", 1, 1.5, True, ["1"], [2]]
+    values = [datetime.date(2020, 1, 2), "1", 1, 1.5, True, ["1"], [2]]
+
+    def shape(x, y):
+        u = typing.Union[x, y]
+        return {"union": u, "optional": typing.Optional[u], "list": list[u], "dict": dict[str, u]}[spelling]
+
+    def wrap(v):
+        return {"union": v, "optional": v, "list": [v], "dict": {"k": v}}[spelling]
+    with space.Ctx():
+        S1, S2 = shape(T[a], T[b]), shape(T[b], T[a])
+        res.counters["shapes_equal_as_python_objects"] += int(S1 == S2)
+        for order in ((S1, S2), (S2, S1)):
+            for S in order:          # the second shape is used right after the first one
+                res.cases += 1
+                for x in inputs:
+                    res.transitions += 2
+                    want = e1.outcome(basic.BasicDecoder(S).decode, wrap(copy.deepcopy(x)))
+                    got = e1.outcome(lambda: basic.decode(wrap(copy.deepcopy(x)), S))
+                    if want[0] != got[0] or (want[0] == "ok" and not ref.same(want[1], got[1])):
+                        res.violation(f"decode-paths-disagree|pairs|{a}|{b}|{spelling}", "decode-paths-disagree", "oneshot",
+                                      dict(unit=unit, path="oneshot", value_index=-1),
+                                      f"shape={S} input={wrap(x)!r}: BasicDecoder -> {_sh(want)}, decode() -> {_sh(got)} "
+                                      f"(after a one-shot call with {order[0] if S is order[1] else 'nothing'})")
+                    else:
+                        res.outcomes["ok"] += 1
+                        res.nontrivial += 1
+                for v in values:
+                    res.transitions += 2
+                    want = e1.outcome(basic.BasicEncoder(S).encode, wrap(v))
+                    got = e1.outcome(lambda: basic.encode(wrap(v), S))
+                    if want[0] != got[0] or (want[0] == "ok" and not ref.same(want[1], got[1])):
+                        res.violation(f"encode-paths-disagree|pairs|{a}|{b}|{spelling}", "encode-paths-disagree", "oneshot",
+                                      dict(unit=unit, path="oneshot", value_index=-1),
+                                      f"shape={S} value={wrap(v)!r}: BasicEncoder -> {_sh(want)}, encode() -> {_sh(got)}")
+                    else:
+                        res.outcomes["ok"] += 1
+    res.states += 1
+    return res
+
+
 def run_unit(unit):
+    if unit[0] == "pairs":
+        return run_pairs(unit)
     return run_rel(unit) if unit[0] == "rel" else run_hist(unit)
 
 
 def replay(case):
     u = core.detuple(case["unit"])
+    if u[0] == "pairs":
+        return run_pairs(tuple(u)).violations
     if u[0] == "rel":
         vs = run_rel(u, only=case["value_index"] if case["value_index"] >= 0 else None).violations
         return [v for v in vs if v["case"]["path"] == case["path"]]
